@@ -1827,9 +1827,9 @@ func c10EmitRepl(run *Run, c c10Case, resp c10ChildResp) {
 		alias = alias || c10MayAlias(rp)
 	}
 	if alias {
-		run.Count("repl", "skipped-source-aliasing")
+		run.Count("repl", "source-may-be-aliased")
 	}
-	if !ok || resp.Unrep || tab.bad || !safe || !lselOK || nullsMulti || alias {
+	if !ok || resp.Unrep || tab.bad || !safe || !lselOK || nullsMulti {
 		run.Count("repl", "skipped-domain")
 		run.Meta.Skipped++
 		return
